@@ -228,6 +228,14 @@ func (s *Searcher) SetAsIqrStatsResults() {
 }
 
 func (s *Searcher) Rewind() {
+	if s.subsearch != nil {
+		// Fetch() reads from the subsearchers through the merger, so they
+		// are what has to start over; without this a two-pass command in
+		// front of a sort that the searcher takes over got nothing in its
+		// second pass.
+		s.subsearch.merger.Rewind()
+	}
+
 	s.getBlocksLock.Lock()
 	defer s.getBlocksLock.Unlock()
 
@@ -239,6 +247,16 @@ func (s *Searcher) Rewind() {
 	s.remainingBlocksSorted = make([]*block, 0)
 	s.unsentRRCs = make([]*sutils.RecordResultContainer, 0)
 	s.segEncToKey = utils.NewTwoWayMap[uint32, string]()
+
+	// Start reading the sort index from the beginning again.
+	s.sortIndexState = sortIndexState{
+		forceNormalSearch:  s.sortIndexState.forceNormalSearch,
+		numRecordsPerBatch: s.sortIndexState.numRecordsPerBatch,
+	}
+	if s.assignedQSRs != nil && !s.sortIndexState.forceNormalSearch {
+		// The sort-index path uses s.qsrs directly and never reloads it.
+		s.qsrs = s.assignedQSRs
+	}
 }
 
 func (s *Searcher) Cleanup() {
